@@ -394,7 +394,7 @@ Definition ps_step (s : smap (option (N * N) * bool)) (o : po_op)
   match o with
   | PHas n => (s, OBool (match s_val s n with Some _ => true | None => false end))
   | PSet n tag v =>
-      (s_put s n (Some (tag, v), match s_val s n with Some (_, q) => q | None => false end), OUnit)
+      (s_put s n (store_of tag v, match s_val s n with Some (_, q) => q | None => false end), OUnit)
   | PGet n tag dflt =>
       match s_val s n with
       | Some (Some (t, v), q) =>
@@ -545,3 +545,33 @@ Proof.
   rewrite lookup_erase. rewrite N.eqb_refl. reflexivity.
 Qed.
 
+
+(* setParam with any argument form, then getParam: the type that matters is the STORED one (store_of) *)
+Lemma po_find_after_set s n form v :
+  exists p, po_find (fst (po_step s (PSet n form v))) n = Some p /\ p_data p = store_of form v.
+Proof.
+  cbn [po_step fst]. rewrite po_find_modify by reflexivity. rewrite N.eqb_refl, po_find_ensure.
+  destruct (po_find s n) as [p|] eqn:E; cbn.
+  - eexists. split; reflexivity.
+  - rewrite N.eqb_refl. cbn. eexists. split; reflexivity.
+Qed.
+
+Lemma po_set_get_stored s n form v t w d :
+  store_of form v = Some (t, w) ->
+  let s' := fst (po_step s (PSet n form v)) in
+  snd (po_step s' (PGet n t d)) = OVal w /\
+  option_map p_query (po_find (fst (po_step s' (PGet n t d))) n) = Some true /\
+  (forall t', t' <> t -> po_step s' (PGet n t' d) = (s', OVal d)).
+Proof.
+  intros H s'. destruct (po_find_after_set s n form v) as [p [Hf Hd]]. fold s' in Hf. rewrite H in Hd.
+  destruct (po_get_match s' n t d p w Hf Hd) as [A B]. repeat split; auto.
+  intros t' Hne. apply po_get_mismatch. intros p' Hp' t0 v0 Hd0. rewrite Hf in Hp'. injection Hp' as <-.
+  rewrite Hd in Hd0. injection Hd0 as <- <-. congruence.
+Qed.
+
+Lemma po_set_empty_any s n v tag d :
+  let s' := fst (po_step s (PSet n 10 v)) in po_step s' (PGet n tag d) = (s', OVal d).
+Proof.
+  intro s'. destruct (po_find_after_set s n 10 v) as [p [Hf Hd]]. fold s' in Hf. cbn in Hd.
+  apply po_get_mismatch. intros p' Hp' t0 v0 Hd0. rewrite Hf in Hp'. injection Hp' as <-. congruence.
+Qed.
